@@ -285,7 +285,7 @@ impl SeqSpec for Seq {
 
 pub fn run(rep: &mut Report) {
     let deep = !rep.quick();
-    let dl = lattice::dl(if deep { 16_384 } else { 256 }, true);
+    let dl = lattice::dl(if deep { 16_384 } else { 2_048 }, true);
     let st = steps();
     rep.bound("DL_size", dl.len() as u64);
     rep.bound("steps", st.len() as u64);
